@@ -9,9 +9,10 @@ from . import core
 from .core import Sym
 
 
-def declare(ctx, phases):
-    """phases: list of (Sym u_k, name of the ctx variable t_k)."""
+def declare(ctx, phases, spare=()):
+    """phases: list of (Sym u_k, name of the ctx variable t_k); spare: ctx variables for phases discovered on the path."""
     ctx.phases = []
+    ctx.spare_phase_vars = list(spare)
     for u, tname in phases:
         t = ctx.sym(tname)
         c = (1 - t * t) / (1 + t * t)
@@ -45,13 +46,13 @@ def _decompose(x):
         if n:
             rest = rest - u * int(n)
     if not (rest.is_const() and not rest.num):
-        # atoms (e.g. |q| R): try a single proportional base phase
-        for k, (u, _, _) in enumerate(ctx.phases):
-            r = x / u if u.num else None
-            if r is not None and r.is_const() and r.as_fraction().denominator == 1:
-                out = [0] * len(ctx.phases)
-                out[k] = int(r.as_fraction())
-                return out
+        # a remaining single term (e.g. |q| R, with |q| a root atom created on this path) becomes a new base phase
+        spare = getattr(ctx, "spare_phase_vars", [])
+        if not rest.den and len(rest.num) == 1 and spare:
+            tname = spare.pop(0)
+            t = ctx.sym(tname)
+            ctx.phases.append((rest, (1 - t * t) / (1 + t * t), 2 * t / (1 + t * t)))
+            return ns + [1]
         return None
     return ns
 
